@@ -144,12 +144,159 @@ class _WritePipe(transports.WriteTransport):
         pass
 
 
+class _SubPipe(transports.ReadTransport):
+    """what get_pipe_transport(1|2) of a subprocess transport returns"""
+
+    def __init__(self, owner, fd, which):
+        super().__init__()
+        self._owner, self.fd, self.which = owner, fd, which
+        self.pos, self.paused, self.disconnected = 0, False, False
+
+    def pause_reading(self):
+        self.paused = True
+
+    def resume_reading(self):
+        self.paused = False
+
+    def is_reading(self):
+        return not (self.paused or self.disconnected)
+
+    def is_closing(self):
+        return self.disconnected
+
+    def close(self):
+        self._owner._pipe_closed(self)
+
+    def __del__(self):
+        pass
+
+
+class _SimSubprocess(transports.SubprocessTransport):
+    """loop.subprocess_exec / asyncio.create_subprocess_exec on the simulated helper: the protocol's callbacks are
+    made by the loop at the virtual times at which the helper writes, its pipes reach EOF, and it exits - in the order
+    asyncio's own transport produces them (data, pipe_connection_lost, process_exited, connection_lost last)."""
+
+    def __init__(self, loop, protocol, proc, extra=None):
+        super().__init__(extra)
+        self._loop, self._protocol, self._p = loop, protocol, proc
+        self._pipes = {}
+        if proc.stdout is not None:
+            self._pipes[1] = _SubPipe(self, 1, "out")
+        if proc.stderr is not None:
+            self._pipes[2] = _SubPipe(self, 2, "err")
+        self._exited = self._finished = self._closed = False
+        proc._resolve()
+        proc._start_reading()
+        loop._subprocs.append(self)
+        loop.call_soon(protocol.connection_made, self)
+
+    # -- what the loop asks ---------------------------------------------------------------------------
+    def _events(self, now):
+        p, ev, pr = self._p, [], self._protocol
+        if self._finished:
+            return ev
+        for sp in self._pipes.values():
+            if sp.disconnected:
+                continue
+            if not sp.paused:
+                data = p._avail(sp.which, now)[sp.pos:]
+                if data:
+                    sp.pos += len(data)
+                    ev.append(lambda fd=sp.fd, data=data: pr.pipe_data_received(fd, data))
+            if now >= p._pipes_end() and not sp.paused and sp.pos >= len(p._avail(sp.which, now)):
+                sp.disconnected = True
+                self._sync_streams()
+                ev.append(lambda fd=sp.fd: pr.pipe_connection_lost(fd, None))
+        if not self._exited and now >= p._proc_end():
+            if p.returncode is None:
+                p.poll()
+            self._exited = True
+            ev.append(pr.process_exited)
+        if self._exited and all(sp.disconnected for sp in self._pipes.values()):
+            self._finished = True
+            if self in self._loop._subprocs:
+                self._loop._subprocs.remove(self)
+            ev.append(lambda: pr.connection_lost(None))
+        return ev
+
+    def _next_time(self, now):
+        p = self._p
+        if self._finished:
+            return float("inf")
+        t = float("inf") if self._exited else p._proc_end()
+        for sp in self._pipes.values():
+            if not sp.disconnected and not sp.paused:
+                t = min(t, p._next_output_time(sp.which, now), p._pipes_end())
+        return t
+
+    def _sync_streams(self):
+        # the helper model asks its stream objects whether the parent still holds the read ends
+        for sp, st in ((self._pipes.get(1), self._p.stdout), (self._pipes.get(2), self._p.stderr)):
+            if sp is not None and st is not None and sp.disconnected:
+                st.closed = True
+
+    def _pipe_closed(self, sp):
+        if not sp.disconnected:
+            sp.disconnected = True
+            self._sync_streams()
+            self._loop.call_soon(self._protocol.pipe_connection_lost, sp.fd, None)
+            self._p.world.sched.notify(self._p)
+
+    # -- SubprocessTransport ----------------------------------------------------------------------------
+    def get_pid(self):
+        return self._p.pid
+
+    def get_returncode(self):
+        return self._p.returncode if self._exited or self._p._killed else None
+
+    def get_pipe_transport(self, fd):
+        return self._pipes.get(fd)
+
+    def _check(self):
+        if self._closed and self._exited:
+            raise ProcessLookupError()
+
+    def send_signal(self, sig):
+        self._check()
+        self._p.send_signal(sig)
+
+    def terminate(self):
+        self._check()
+        self._p.terminate()
+
+    def kill(self):
+        self._check()
+        self._p.kill()
+
+    def is_closing(self):
+        return self._closed
+
+    def set_protocol(self, protocol):
+        self._protocol = protocol
+
+    def get_protocol(self):
+        return self._protocol
+
+    def close(self):
+        if self._closed:
+            return
+        self._closed = True
+        for sp in self._pipes.values():
+            sp.close()
+        if not self._exited and self._p.returncode is None and self._p.sim_alive():
+            self._p.kill()  # asyncio's transport kills a process that is still running when it is closed
+
+    def __del__(self):
+        pass
+
+
 class SimLoop(base_events.BaseEventLoop):
     def __init__(self, world):
         super().__init__()
         self._w = world
         self._selector = _Selector(self)
         self._read_pipes = []
+        self._subprocs = []
         self._readers = {}  # stream object id -> (callback, args)
         self._clock_resolution = 1e-9
 
@@ -160,6 +307,8 @@ class SimLoop(base_events.BaseEventLoop):
     # -- the one blocking point -----------------------------------------------------------------------
     def _io_events(self):
         ev = [rp._on_ready for rp in list(self._read_pipes) if rp._ready()]
+        for sp in list(self._subprocs):
+            ev.extend(sp._events(self._w.clock.now))
         s = self._w.session
         if s is not None and self._readers and s.poll_stdin():
             for cb, args in list(self._readers.values()):
@@ -176,6 +325,11 @@ class SimLoop(base_events.BaseEventLoop):
         s = self._w.session
         if self._wants_stdin() and s is not None:
             s.blocks += 1
+        if self._subprocs:
+            now = self._w.clock.now
+            nxt = min(sp._next_time(now) for sp in self._subprocs) - now
+            if nxt != float("inf") and (timeout is None or nxt < timeout):
+                timeout = max(nxt, 0.0)
         self._w.sched.block(on=self, timeout=timeout, stdin=self._wants_stdin() and s is not None)
         return self._io_events()
 
@@ -235,8 +389,13 @@ class SimLoop(base_events.BaseEventLoop):
     def _make_datagram_transport(self, *a, **k):
         raise Unmodelled("asyncio datagram transport")
 
-    async def _make_subprocess_transport(self, *a, **k):
-        raise Unmodelled("asyncio subprocess transport")
+    async def _make_subprocess_transport(self, protocol, args, shell, stdin, stdout, stderr, bufsize, extra=None, **kwargs):
+        import subprocess
+        if shell or stdin == subprocess.PIPE:
+            raise Unmodelled("asyncio subprocess transport with shell=%r stdin=%r" % (shell, stdin))
+        self._w.probe("aio-subprocess")
+        proc = subprocess.Popen(args, stdin=stdin, stdout=stdout, stderr=stderr, bufsize=bufsize, **kwargs)
+        return _SimSubprocess(self, protocol, proc, extra)
 
     def add_signal_handler(self, sig, callback, *args):
         raise Unmodelled("loop.add_signal_handler")
